@@ -1,4 +1,4 @@
-//@@ {"wip":true,"inject":"src/lz/hc4.rs","features":"encoder","needs":["api_hash234"]}
+//@@ {"inject":"src/lz/hc4.rs","features":"encoder","needs":["api_hash234"]}
 
 // Match-finder step harnesses (C01 encoder side, C15 caller side): ONE real `find_matches` / `skip` call from an
 // ARBITRARY match-finder state that satisfies the table invariant below, on an arbitrary window content.
@@ -152,7 +152,7 @@ fn hc4_find_matches_step<const WB: usize>(dict: u32, mlm: u32, nice_len: u32, de
 }
 
 // C01-H: every (distance, length) HC4 reports is a true match inside the dictionary and the window.
-//@ {"name":"c01h_hc4_find_matches_sound","tier":"thorough","props":["C01","C15","C13"],"obligation":"C01-H","stubbing":true,"stubs":["Hash234 table accessors -> environment stub (harness/api_hash234.rs)"],"timeout":2400,"mem_gb":9,"feature_variants":["encoder","encoder,optimization"],"functions":["lz::hc4::HC4::find_matches","lz::hc4::HC4::move_pos","lz::hc4::HC4::new","lz::hash234::Hash234::new","lz::hash234::Hash234::calc_hashes","lz::hash234::Hash234::update_tables","lz::lz_encoder::LZEncoderData::move_pos","lz::extend_match","lz::extend_match_safe"],"bounds":"dictionary 12 (cyclic_size 13), 40-byte window with arbitrary content, match_len_max 8, nice_len 8, depth limit 2; any read_pos/write_pos/finishing/pending, any lz_pos in [cyclic_size, 2^31-3], any cyclic_pos; one arbitrary admissible entry per hash table, two per chain (all the call can read); unwind 12","assumes":["table invariant T1-T4 (harness header)","no position renormalisation in this step (lz_pos + 1 < 0x7FFFFFFF)"]}
+//@ {"name":"c01h_hc4_find_matches_sound","tier":"thorough","props":["C01","C15","C13"],"obligation":"C01-H","stubbing":true,"stubs":["Hash234 table accessors -> environment stub (harness/api_hash234.rs)"],"timeout":7200,"mem_gb":9,"feature_variants":["encoder","encoder,optimization"],"functions":["lz::hc4::HC4::find_matches","lz::hc4::HC4::move_pos","lz::hc4::HC4::new","lz::hash234::Hash234::new","lz::hash234::Hash234::calc_hashes","lz::hash234::Hash234::update_tables","lz::lz_encoder::LZEncoderData::move_pos","lz::extend_match","lz::extend_match_safe"],"bounds":"dictionary 12 (cyclic_size 13), 40-byte window with arbitrary content, match_len_max 8, nice_len 8, depth limit 2; any read_pos/write_pos/finishing/pending, any lz_pos in [cyclic_size, 2^31-3], any cyclic_pos; one arbitrary admissible entry per hash table, two per chain (all the call can read); unwind 12","assumes":["table invariant T1-T4 (harness header)","no position renormalisation in this step (lz_pos + 1 < 0x7FFFFFFF)"]}
 #[kani::proof]
 #[kani::unwind(12)]
 #[kani::stub(crate::lz::hash234::Hash234::get_hash2_pos, crate::lz::hash234::verif_h234::get2)]
@@ -176,7 +176,7 @@ fn c01h_hc4_find_matches_lite() {
 }
 
 // same with nice_len 4 < match_len_max 8: the early-return-on-nice-length paths
-//@ {"name":"c01h_hc4_find_matches_nice4","props":["C01","C15"],"obligation":"C01-H","stubbing":true,"stubs":["Hash234 table accessors -> environment stub (harness/api_hash234.rs)"],"tier":"thorough","timeout":2400,"mem_gb":9,"functions":["lz::hc4::HC4::find_matches"],"bounds":"as c01h_hc4_find_matches_sound with nice_len 4, depth limit 3","assumes":["table invariant T1-T4","no renormalisation in this step"]}
+//@ {"name":"c01h_hc4_find_matches_nice4","props":["C01","C15"],"obligation":"C01-H","stubbing":true,"stubs":["Hash234 table accessors -> environment stub (harness/api_hash234.rs)"],"tier":"thorough","timeout":7200,"mem_gb":9,"functions":["lz::hc4::HC4::find_matches"],"bounds":"as c01h_hc4_find_matches_sound with nice_len 4, depth limit 3","assumes":["table invariant T1-T4","no renormalisation in this step"]}
 #[kani::proof]
 #[kani::unwind(12)]
 #[kani::stub(crate::lz::hash234::Hash234::get_hash2_pos, crate::lz::hash234::verif_h234::get2)]
@@ -238,8 +238,14 @@ fn c01h_hc4_skip() {
 // live entry keeps its distance and every entry that the clamp sets to 0 is stale.
 static mut NORM_CALLS: u32 = 0;
 static mut NORM_OFFSET: i32 = 0;
+static mut NORM_PTRS: [*const i32; 4] = [core::ptr::null(); 4];
+static mut NORM_LENS: [usize; 4] = [0; 4];
 fn verif_record_normalize(positions: &mut [i32], norm_offset: i32) {
     unsafe {
+        if (NORM_CALLS as usize) < 4 {
+            NORM_PTRS[NORM_CALLS as usize] = positions.as_ptr();
+            NORM_LENS[NORM_CALLS as usize] = positions.len();
+        }
         NORM_CALLS += 1;
         NORM_OFFSET = norm_offset;
     }
@@ -259,6 +265,13 @@ fn c01h_hc4_renormalise_step() {
     unsafe {
         assert!(NORM_CALLS == 4, "C01-H: all four tables (hash2, hash3, hash4, chain) must be renormalised");
         assert!(NORM_OFFSET == 0x7FFF_FFFF - cs, "C01-H: renormalisation offset");
+        // four DIFFERENT tables, each in full: hash2 (1024), hash3 (65536), hash4 (>= 65536), chain (cyclic_size)
+        let p = NORM_PTRS;
+        assert!(p[0] != p[1] && p[0] != p[2] && p[0] != p[3] && p[1] != p[2] && p[1] != p[3] && p[2] != p[3],
+            "C01-H: a table was renormalised twice (and another one not at all)");
+        let l = NORM_LENS;
+        let total = l[0] + l[1] + l[2] + l[3];
+        assert!(total >= 1024 + 65536 + 65536 + cs as usize, "C01-H: a table was renormalised only in part");
         // an entry e >= offset keeps its distance; an entry below the offset is clamped to 0 and must be stale afterwards
         let e: i32 = kani::any();
         kani::assume(e >= 0 && e < 0x7FFF_FFFF);
